@@ -330,6 +330,7 @@ type cliAttempt struct {
 	readErr   string
 	mismatch  bool
 	afterStop bool
+	resp      *http.Response
 }
 
 type cliAttemptView struct {
@@ -445,6 +446,7 @@ func (rt *recTransport) RoundTrip(req *http.Request) (*http.Response, error) {
 	if err != nil {
 		a.Err = err.Error()
 	} else {
+		a.resp = resp
 		a.Status = resp.StatusCode
 		if v := resp.Header.Get("X-Attempt"); v != "" {
 			a.SrvIndex, _ = strconv.Atoi(v)
@@ -690,6 +692,19 @@ func (w *worker) runCase(c caseSpec) *result {
 			}
 		}
 	}
+	// Responses the helper dropped on its way to a retry are never closed by it;
+	// release them once the call is over so that connections, goroutines and the
+	// request bodies they pin do not pile up across thousands of cases.
+	l.mu.Lock()
+	for _, a := range l.cli {
+		a.mu.Lock()
+		if a.resp != nil && a.resp != resp && a.resp.Body != nil {
+			_ = a.resp.Body.Close()
+		}
+		a.resp = nil
+		a.mu.Unlock()
+	}
+	l.mu.Unlock()
 	if c.KeepAlive && c.ID%5 == 0 {
 		w.trKA.CloseIdleConnections()
 	}
@@ -877,7 +892,7 @@ func TestC34(t *testing.T) {
 	run.Assume("configurations where a code is both accepted and an extra retry code are contradictory and not generated")
 
 	r := run.Rand("cases")
-	n := run.N(900, 20000)
+	n := run.N(900, 10000)
 	cases := make([]caseSpec, n)
 	for i := range cases {
 		cases[i] = genCase(r, i, run.Quick())
